@@ -145,6 +145,9 @@ func TestVerifDump(t *testing.T) {
 		d.Program = append(d.Program, prog.Disassemble())
 		d.Ins = as.VerifDump()
 		d.Consts["stack_limit"] = int64(vars.StackLimit)
+		// the error value the too-deep path must return: data word of the interface holding
+		// vars.ERR_too_deep (a *json.UnsupportedValueError)
+		d.Consts["ERR_too_deep"] = int64(uintptr(unsafe.Pointer(vars.ERR_too_deep)))
 		verifWrite(d)
 	}
 	fmt.Println("dumped", len(types))
